@@ -243,6 +243,8 @@ func vParam(name string, def int) int {
 	return def
 }
 func vEngine() bool { return false }
+func vOr(a, b bool) bool  { return a || b }
+func vAnd(a, b bool) bool { return a && b }
 
 func TestVerifReplay(t *testing.T) {
 	path := os.Getenv("GOSYM_REPLAY")
